@@ -6,15 +6,13 @@ reachable section table `run ops` (any history of new_section / append / set_vir
 flatten / relocate operations) or for every table whatsoever.  `Spec/Sections.lean` holds the meaning
 (`OrderSorted`, `NoOverlap`, `OffsetsMonotone`, `Aligned`, `idealOffsets`, `idealEnd`, `codeSizeSpec`, `imageByte`, `fitsB`).
 
-Not proved (tested on every run by the monitors `flattenGood` / `relocGood` over the real code's answers):
- * `code_size()` after flatten EQUALS the end of the last section (proved: it bounds every section end, equals the ideal
-   size and the size before the call) — see `flatten_code_size_partial`;
- * the size clause of `relocate_to_base` (estimate ≥ final);
- * `copy_section_data`, `JitRuntime::_add` copy loop (modelled, corresponded, not proved).
+Not proved (tested on every run by the monitor `relocGood` over the real code's answers): that what `JitRuntime::_add`
+keeps (`estimate - code_size_reduction`) still holds the final image; byte patching of relocations (C04's subject).
 -/
 import AsmjitVerif.Lemmas.SectionsRun
 import AsmjitVerif.Lemmas.SectionsSize
 import AsmjitVerif.Lemmas.SectionsCopy
+import AsmjitVerif.Lemmas.SectionsBuild
 namespace AsmjitVerif.Sections
 
 /-- every reachable table is strictly sorted by (order, id), its ids are below the section count, `.text` is first and
@@ -58,34 +56,43 @@ theorem flatten_layout (ops : List Op) (hok : (flatten (run ops)).2 = .ok ()) :
   rw [if_pos hc]
   exact ⟨hA, hs.1, hs.2.1, hs.2.2, hB, hC⟩
 
-/-- FULL STATEMENT (not proved): `codeSize post = lastEnd post ∧ codeSize post = imageEnd post`.
-    Proved: the reported size is the ideal size, is what `code_size()` said before `flatten` (the estimate is stable —
-    defect #17 broke exactly this), and no section ends behind it.  Missing: that the bound is attained by the last section. -/
-theorem flatten_code_size_partial (ops : List Op) (hok : (flatten (run ops)).2 = .ok ()) :
+/-- the reported size after a successful `flatten` of any reachable table is the ideal size, is what `code_size()` said
+    before the call (the estimate is stable — defect #17 broke exactly this), is the end of the last section by order with
+    non-zero real size, is the end of the very last section, is the largest section end, and no section ends behind it -/
+theorem flatten_code_size (ops : List Op) (hok : (flatten (run ops)).2 = .ok ()) :
     codeSize (flatten (run ops)).1 = idealEnd 0 (run ops).secs ∧
     codeSize (flatten (run ops)).1 = codeSize (run ops) ∧
+    codeSize (flatten (run ops)).1 = endOfLastNonEmpty 0 (flatten (run ops)).1.secs ∧
+    codeSize (flatten (run ops)).1 = lastEnd (flatten (run ops)).1.secs ∧
+    codeSize (flatten (run ops)).1 = imageEnd (flatten (run ops)).1.secs ∧
     ∀ b ∈ (flatten (run ops)).1.secs, b.offset + b.realSize ≤ codeSize (flatten (run ops)).1 := by
   have hfit := (flatten_ok_iff ops).mp hok
-  have hc := (flattenCheck_iff 0 (run ops).secs (run_inv ops).pre (by unfold U64; omega)).mpr hfit
-  obtain ⟨_, _, _, hD⟩ := assign_good 0 (run ops).secs (run_inv ops).pre hfit
-  have hE := (assign_idealEnd 0 (run ops).secs (run_inv ops).pre hfit).1
+  have hpre := (run_inv ops).pre
+  have hc := (flattenCheck_iff 0 (run ops).secs hpre (by unfold U64; omega)).mpr hfit
+  obtain ⟨_, _, _, hD⟩ := assign_good 0 (run ops).secs hpre hfit
+  have hE := (assign_idealEnd 0 (run ops).secs hpre hfit).1
+  have hN := assign_ends 0 (run ops).secs hpre hfit
+  have hI := assign_imageEnd (run ops).secs hpre hfit
+  have hne : (run ops).secs ≠ [] := by
+    obtain ⟨t, rest, h, _⟩ := (run_inv ops).shape
+    rw [h]; simp
   have hpost : Pre 0 (assign 0 (run ops).secs) := (InvS.transfer (assign_keys 0 _) (run_inv ops)).pre
-  have h1 : codeSize (flatten (run ops)).1 = idealEnd 0 (run ops).secs := by
+  have hsecs : (flatten (run ops)).1.secs = assign 0 (run ops).secs := by
     unfold flatten; rw [if_pos hc]
+  have h1 : codeSize (flatten (run ops)).1 = idealEnd 0 (run ops).secs := by
     unfold codeSize
-    show codeSizeOf (assign 0 (run ops).secs) = _
-    rw [codeSizeOf_eq_spec _ hpost]
+    rw [hsecs, codeSizeOf_eq_spec _ hpost]
     unfold codeSizeSpec
     rw [hE, if_pos hfit]
   have h2 : codeSize (run ops) = idealEnd 0 (run ops).secs := by
     unfold codeSize
-    rw [codeSizeOf_eq_spec _ (run_inv ops).pre]
+    rw [codeSizeOf_eq_spec _ hpre]
     unfold codeSizeSpec
     rw [if_pos hfit]
-  refine ⟨h1, by rw [h1, h2], ?_⟩
+  refine ⟨h1, by rw [h1, h2], by rw [h1, hsecs, hN.1], by rw [h1, hsecs, hN.2 hne], by rw [h1, hsecs, hI], ?_⟩
   intro b hb
   rw [h1]
-  unfold flatten at hb; rw [if_pos hc] at hb
+  rw [hsecs] at hb
   exact hD b hb
 
 /-- `code_size()` of every reachable table (flattened or not) is the ideal size, saturated at SIZE_MAX when that does not
@@ -99,7 +106,7 @@ theorem flatten_again_same_size (ops : List Op) (hok : (flatten (run ops)).2 = .
     (flatten (run (ops ++ [Op.flatten]))).2 = .ok () ∧
     codeSize (flatten (run (ops ++ [Op.flatten]))).1 = codeSize (run ops) := by
   have hrun : run (ops ++ [Op.flatten]) = (flatten (run ops)).1 := by simp [run, step]
-  have h1 := flatten_code_size_partial ops hok
+  have h1 := flatten_code_size ops hok
   have hfit := (flatten_ok_iff ops).mp hok
   have hc := (flattenCheck_iff 0 (run ops).secs (run_inv ops).pre (by unfold U64; omega)).mpr hfit
   have hE := (assign_idealEnd 0 (run ops).secs (run_inv ops).pre hfit).1
@@ -109,7 +116,7 @@ theorem flatten_again_same_size (ops : List Op) (hok : (flatten (run ops)).2 = .
     show idealEnd 0 (assign 0 (run ops).secs) < U64
     rw [hE]; exact hfit
   refine ⟨hok2, ?_⟩
-  have h2 := flatten_code_size_partial (ops ++ [Op.flatten]) hok2
+  have h2 := flatten_code_size (ops ++ [Op.flatten]) hok2
   rw [h2.2.1, hrun, h1.2.1]
 
 /-- `copy_flattened_data` never writes outside the destination — every table (flattened or not), every destination size,
@@ -136,6 +143,63 @@ theorem copy_after_flatten_exact (ops : List Op) (hok : (flatten (run ops)).2 = 
     ∃ d, copyFlattened (flatten (run ops)).1 dst flags = .ok d ∧ d.length = dst.length ∧
       ∀ k, k < dst.length → d[k]? = some (imageByte (flatten (run ops)).1.secs dst.length flags (fun i => dst.getD i 0) k) :=
   copyFlattened_exact _ dst flags hfit (flatten_layout ops hok).2.1
+
+/-- `copy_section_data` never writes outside the destination -/
+theorem copySection_no_fault (h : Holder) (dst : List Byte) (id : Nat) (flags : CopyFlags) :
+    copySection h dst id flags ≠ .fault := copySection_no_fault' h dst id flags
+
+/-- `copy_section_data` of a valid section: refused (kInvalidArgument) when the destination is smaller than the buffer;
+    otherwise the result has the destination's length and is, byte for byte, the section's buffer followed by zeros
+    (kPadSectionBuffer) or by the old content -/
+theorem copySection_exact (h : Holder) (dst : List Byte) (id : Nat) (flags : CopyFlags) (s : Section)
+    (hv : h.validId id = true) (hs : findSec h.secs id = some s) :
+    (dst.length < s.bufSize → copySection h dst id flags = .error .invalidArgument) ∧
+    (s.bufSize ≤ dst.length → ∃ d, copySection h dst id flags = .ok d ∧ d.length = dst.length ∧
+        ∀ k, k < dst.length → d[k]? = some (sectionImageByte s flags (fun i => dst.getD i 0) k)) :=
+  copySection_spec' h dst id flags s hv hs
+
+/-- the size estimated before relocation is never smaller than the size after it: for every program built by
+    new_section / data / virtual-size / address-table / call-abs operations (`BuildOK`: no flatten or relocate inside,
+    the virtual size of `.addrtab` itself is left to `add_address_to_address_table`; fewer than 2^60 operations so that
+    8 bytes per entry cannot wrap), relocated to any base, directly or after `flatten` (the `JitRuntime::_add` order) -/
+theorem estimate_ge_final (ops : List Op) (hb : BuildOK init ops) (hl : ops.length < 2 ^ 60) (base : Nat) :
+    codeSize (relocate (run ops) base).1 ≤ codeSize (run ops) ∧
+    codeSize (relocate (flatten (run ops)).1 base).1 ≤ codeSize (flatten (run ops)).1 := by
+  have hat := build_addrTabOK ops hb hl
+  have hinv := run_inv ops
+  refine ⟨relocate_code_size_le _ hinv hat base, ?_⟩
+  have hinv' : InvS (flatten (run ops)).1.secs := by
+    have := run_inv (ops ++ [Op.flatten])
+    simpa [run, step] using this
+  exact relocate_code_size_le _ hinv' (flatten_addrTabOK _ hinv hat) base
+
+/-- state form of the same: whenever no entry has a slot yet and `.addrtab` reserves 8 bytes per entry -/
+theorem estimate_ge_final_state (h : Holder) (hinv : InvS h.secs) (hat : AddrTabOK h) (base : Nat) :
+    codeSize (relocate h base).1 ≤ codeSize h := relocate_code_size_le h hinv hat base
+
+/-- the copy loop of `JitRuntime::_add` over a list of sections that the span holds (`offset + real_size ≤ size`) and
+    that do not overlap writes exactly what `copy_flattened_data(kPadSectionBuffer)` writes over the same list, and that is
+    the specified image byte for byte -/
+theorem installed_image_exact_list (l : List Section) (dst : List Byte)
+    (hfit : ∀ s ∈ l, s.offset + s.realSize ≤ dst.length) (hno : NoOverlap l) :
+    ∃ d, jitCopy l dst = some d ∧ copyFlattenedSecs l dst { padSection := true, padTarget := false } = .ok d ∧
+      d.length = dst.length ∧
+      ∀ k, k < dst.length → d[k]? = some (imageByte l dst.length { padSection := true, padTarget := false } (fun i => dst.getD i 0) k) := by
+  obtain ⟨d, e', h1, h2⟩ := jitCopy_eq_copyLoop l dst 0 hfit
+  have hfits : fitsB dst.length l = true := by
+    unfold fitsB
+    rw [List.all_eq_true]
+    intro s hs
+    have := hfit s hs
+    have : s.bufSize ≤ s.realSize := by unfold Section.realSize; omega
+    simp; omega
+  obtain ⟨d', hd', hlen, hget⟩ := copyFlattenedSecs_exact' l dst { padSection := true, padTarget := false } hfits hno
+  have hdd : d' = d := by
+    unfold copyFlattenedSecs at hd'
+    rw [h1] at hd'
+    simpa using hd'.symm
+  subst hdd
+  exact ⟨d', h2, hd', hlen, hget⟩
 
 /-! ### non-vacuity and the defects of the pinned code, in Lean -/
 
